@@ -117,6 +117,13 @@ def run(repo: Repo, rep: Report, tier: str) -> None:
 
     wc, wd = wbits(comp[0]), wbits(deco[0])
     rep.check(wc == wd and wc == "-zlib.MAX_WBITS", "deflate", "dsutils.encode/decode", f"compress window {wc}, decompress window {wd}", "PS3.5 A.5 deflated transfer syntax is a raw deflate stream (negative window bits); a differing window on one side fails or mis-decodes only for the deflated syntax", mod=ds, node=comp[0])
+    # the whole stream is inflated: a decompressobj().decompress(data, max_length) stops at max_length and leaves
+    # the rest in .unconsumed_tail - without a loop over it the data set is silently cut there
+    for c_ in walk_no_nested(dec):
+        if isinstance(c_, ast.Call) and isinstance(c_.func, ast.Attribute) and c_.func.attr == "decompress" and dotted(c_.func) != "zlib.decompress":
+            bounded = len(c_.args) > 1 or any(k.arg == "max_length" for k in c_.keywords)
+            drains = any(isinstance(x, ast.Attribute) and x.attr == "unconsumed_tail" for x in ast.walk(dec))
+            rep.check(not bounded or drains, "deflate", "dsutils.decode", enclosing(c_, (ast.stmt,)), "the inflater is given an output limit and what it leaves in unconsumed_tail is never read: a deflated data set that inflates beyond the limit reaches the handler silently truncated while the status says Success", mod=ds, node=c_)
     for fn, c, nm in ((enc, comp[0], "encode"), (dec, deco[0], "decode")):
         g = enclosing(c, (ast.If,))
         rep.check(g is not None and norm(g.test) == "deflated" and any(x is c for s in g.body for x in ast.walk(s)), "deflate", f"dsutils.{nm}", f"{norm(c.func)} under `if deflated:`", "(de)compression must happen exactly when the deflated flag is set", mod=ds, node=c)
